@@ -46,6 +46,9 @@ PURE_BUILTINS = {
 NOT_NONE = ('obj', 'tuple', 'list', 'dict', 'set', 'fn', 'cls', 'partial',
             'methodcaller', 'attrgetter', 'itemgetter', 'ntcls', 'nt', 'ext',
             'mod', 'gen')
+MUTATORS = {'append', 'add', 'update', 'extend', 'insert', 'pop', 'remove',
+            'clear', 'setdefault', 'appendleft', 'popleft', 'discard',
+            'popitem', 'sort', 'reverse', 'extendleft', 'rotate'}
 BOOLEAN_OPS = {'==', '!=', 'is', 'isnot', 'in', 'notin', '<', '<=', '>', '>=',
                'not', 'isinstance', 'issubclass', 'hasattr', 'callable',
                'bool', 'truth', 'any', 'all'}
@@ -133,6 +136,8 @@ def struct(t):
         return (k, struct(t[1]), None)
     if k == 'fn':
         return ('fn', t[1], struct(t[2]))
+    if k == 'closure':
+        return t[:2]
     return tuple(struct(x) if isinstance(x, tuple) else x for x in t)
 
 
@@ -187,6 +192,8 @@ def show(t, _depth=0):
         return '%s(%s)' % (n, ', '.join(show(x) for x in a))
     if k == 'fn':
         q = getattr(t[1], 'qualname', '?')
+        if isinstance(t[2], tuple) and t[2] and t[2][0] == 'closure':
+            return q
         return ('%s.' % show(t[2]) if t[2] is not None else '') + q
     if k == 'cls':
         return t[1].qualname
@@ -413,6 +420,7 @@ class PathSum(object):
         a = fi.node.args
         params = [x.arg for x in a.posonlyargs + a.args]
         env = st.env
+        env['<frame>'] = next(self.uid)
         for i, p in enumerate(params):
             if args is not None and p in args:
                 env[p] = args[p]
@@ -443,6 +451,44 @@ class PathSum(object):
             paths.append(Path(s))
         RUNS['%s:%s' % (fi.module.name.split('.')[-1], fi.qualname)] = \
             len(paths)
+        return paths
+
+    def run_then(self, fi, cont, args=None):
+        """Path summaries of a continuation: fi runs with symbolic
+        arguments; for each path that returns, cont(self, state, value) ->
+        [(state, term)] goes on from there (closures made by fi still see
+        its frame).  The summaries hold only what the continuation did."""
+        st = St()
+        a = fi.node.args
+        env = st.env
+        env['<frame>'] = next(self.uid)
+        for p in [x.arg for x in a.posonlyargs + a.args + a.kwonlyargs]:
+            env[p] = args[p] if args and p in args else sym(p)
+        if a.vararg:
+            env[a.vararg.arg] = (args or {}).get(
+                a.vararg.arg, sym('*' + a.vararg.arg))
+        if a.kwarg:
+            env[a.kwarg.arg] = (args or {}).get(
+                a.kwarg.arg, sym('**' + a.kwarg.arg))
+        self.stack = [fi]
+        try:
+            outs = self.block(fi.body, [st], fi)
+            paths = []
+            for s in outs:
+                if s.outcome is None or s.outcome[0] != 'return':
+                    continue
+                v = s.outcome[1]
+                s.outcome = None
+                s.events = []
+                s.conds = []
+                s.cond_held = []
+                for s2, t in cont(self, s, v):
+                    if s2.outcome is None:
+                        s2.outcome = ('return', t, fi.node)
+                    paths.append(Path(s2))
+        except Budget:
+            raise self.err('path budget (%d) exhausted' % self.max_paths,
+                           fi.node, fi)
         return paths
 
     # -- statements ----------------------------------------------------------
@@ -578,8 +624,21 @@ class PathSum(object):
                     if isinstance(t, ast.Subscript):
                         for s2, b in self.ev(t.value, s, fi):
                             for s3, k in self.ev(t.slice, s2, fi):
-                                self.emit(s3, Ev('delitem', n, fi, s3,
-                                                 base=b, key=k))
+                                ev = Ev('delitem', n, fi, s3, base=b, key=k)
+                                if self.implicit and s3.try_depth > 0 and \
+                                        s3.outcome is None:
+                                    # del d[k] inside a try: the key may be
+                                    # missing
+                                    r = s3.fork()
+                                    rev = copy.copy(ev)
+                                    rev.raised = True
+                                    r.events.append(rev)
+                                    r.outcome = ('raise', (
+                                        'call', ('builtin', 'KeyError'),
+                                        (k,), (), next(self.uid)), n,
+                                        'lookup')
+                                    nx.append(r)
+                                self.emit(s3, ev)
                                 nx.append(s3)
                     elif isinstance(t, ast.Attribute):
                         for s2, b in self.ev(t.value, s, fi):
@@ -596,8 +655,11 @@ class PathSum(object):
             return ss
         if isinstance(n, (ast.FunctionDef, ast.AsyncFunctionDef)):
             sub = self._nested_func(n, fi)
-            st.env[n.name] = ('fn', sub, None)
-            st.notes.append(('closure', n.name, dict(st.env)))
+            cid = next(self.uid)
+            st.env[n.name] = ('fn', sub, ('closure', id(n), cid))
+            # the function object remembers the frame it was made in
+            st.notes.append(('closure', n.name, dict(st.env), cid,
+                             st.env.get('<frame>')))
             return [st]
         if isinstance(n, ast.ClassDef):
             st.env[n.name] = sym('<local class %s>' % n.name)
@@ -1231,8 +1293,10 @@ class PathSum(object):
             return out
         if isinstance(e, ast.Lambda):
             sub = self._nested_func(e, fi)
-            st.notes.append(('closure', '<lambda>', dict(st.env)))
-            return [(st, ('fn', sub, ('closure', id(e))))]
+            cid = next(self.uid)
+            st.notes.append(('closure', '<lambda>', dict(st.env), cid,
+                             st.env.get('<frame>')))
+            return [(st, ('fn', sub, ('closure', id(e), cid)))]
         if isinstance(e, (ast.ListComp, ast.SetComp, ast.GeneratorExp,
                           ast.DictComp)):
             return self.comprehension(e, st, fi)
@@ -1263,8 +1327,9 @@ class PathSum(object):
             if s.outcome is not None:
                 out.append((s, BOT))
                 continue
-            if len(gens) == 1 and not gens[0].ifs and its[0][0] in (
-                    'tuple', 'list') and len(its[0][1]) <= self.unroll \
+            seq0 = self.as_sequence(its[0], s, self.unroll) \
+                if len(gens) == 1 else None
+            if len(gens) == 1 and not gens[0].ifs and seq0 is not None \
                     and not isinstance(e, ast.DictComp):
                 # a comprehension over a literal sequence is that many
                 # evaluations of its element, in order
@@ -1273,7 +1338,7 @@ class PathSum(object):
                 for x in ast.walk(gens[0].target):
                     if isinstance(x, ast.Name) and x.id in s.env:
                         saved[x.id] = s.env[x.id]
-                for item in its[0][1]:
+                for item in seq0:
                     nx = []
                     for s2, acc in live:
                         for s3 in self.assign(gens[0].target, item, s2, fi,
@@ -1582,7 +1647,26 @@ class PathSum(object):
         for fr in (st.env,):
             if nm in fr:
                 return fr[nm]
-        # closure: enclosing frames of lexically enclosing functions
+        # closure: the frame the function object was made in -- the live one
+        # when it is still running (late binding), its snapshot otherwise
+        cur = st.env
+        hops = 0
+        while cur is not None and hops < 8:
+            hops += 1
+            cid = cur.get('<closure>')
+            if cid is None:
+                break
+            note = next((x for x in reversed(st.notes) if x[0] == 'closure'
+                         and len(x) > 3 and x[3] == cid), None)
+            if note is None:
+                break
+            live = next((fr for fr in st.frames
+                         if fr.get('<frame>') == note[4]
+                         and note[4] is not None), None)
+            cur = live if live is not None else note[2]
+            if nm in cur:
+                return cur[nm]
+        # enclosing frames of lexically enclosing functions
         f = fi.outer
         depth = len(st.frames) - 2
         while f is not None and depth >= 0:
@@ -1828,6 +1912,80 @@ class PathSum(object):
             return None
         return None
 
+    def forget_literal(self, lit, st):
+        new = ('call', ('builtin', '<mutated>'), (lit,), (), next(self.uid))
+        for k, v in list(st.heap.items()):
+            if v == lit:
+                st.heap[k] = new
+        for fr in st.frames:
+            for k, v in list(fr.items()):
+                if v == lit:
+                    fr[k] = new
+
+    def nt_fields(self, ci):
+        """Field names when the class derives from a namedtuple(...) call
+        with literal fields (None otherwise)."""
+        cache = self.__dict__.setdefault('_ntf', {})
+        if ci not in cache:
+            cache[ci] = None
+            for c in self.db.mro(ci):
+                node = getattr(c, 'node', None)
+                for b in getattr(node, 'bases', []) or []:
+                    if isinstance(b, ast.Call) and isinstance(
+                            b.func, (ast.Name, ast.Attribute)):
+                        try:
+                            ent = self.db.resolve_dotted(c.module, b.func)
+                        except AnalysisError:
+                            continue
+                        if getattr(ent, 'dotted', None) == \
+                                'collections.namedtuple':
+                            v = self._literal(b, c.module)
+                            if v is not None and v[0] == 'ntcls':
+                                cache[ci] = v[2]
+                if cache[ci] is not None:
+                    break
+        return cache[ci]
+
+    def term_class(self, t, st):
+        """In-repo class the term is known to be an instance of: the
+        receiver of the summarised method, a constructed object, or a value
+        the path has tested with isinstance."""
+        if t[0] == 'obj':
+            return t[3]
+        root = self.stack[0] if self.stack else None
+        if t[0] == 'sym' and root is not None and root.cls is not None and \
+                root.kind in ('instance', 'property') and root.params and \
+                t[1] == root.params[0]:
+            return root.cls
+        stt = struct(t)
+        for a, pol, _ in st.conds:
+            if pol and a[1] == 'isinstance' and struct(a[2][0]) == stt and \
+                    a[2][1][0] == 'cls':
+                return a[2][1][1]
+        return None
+
+    def as_sequence(self, t, st, limit=None):
+        """Items of a term that is a sequence of known length (list of
+        terms), or None."""
+        limit = 3 * self.unroll if limit is None else limit
+        items = None
+        if t[0] in ('tuple', 'list'):
+            items = list(t[1])
+        elif t[0] == 'nt':
+            items = list(t[2])
+        elif is_const(t) and isinstance(t[1], (tuple, str)):
+            items = [const(x) for x in t[1]]
+        elif t[0] in ('sym', 'attr', 'obj', 'elem', 'phi'):
+            ci = self.term_class(t, st)
+            if ci is not None and self.db.find_method(ci, '__iter__') is None:
+                f = self.nt_fields(ci)
+                if f is not None:
+                    items = [('attr', t, x) if (t, x) not in st.heap
+                             else st.heap[(t, x)] for x in f]
+        if items is not None and len(items) > limit:
+            return None
+        return items
+
     def _static_class(self, b, fi, node, attr=None):
         """Unique in-repo instance class of the expression `node` (typed by
         the whole-program inference), if any."""
@@ -1952,12 +2110,9 @@ class PathSum(object):
             args = []
             for a, t in zip(e.args, items[1:1 + len(e.args)]):
                 if isinstance(a, ast.Starred):
-                    if t[0] in ('tuple', 'list'):
-                        args.extend(t[1])       # f(*(a, b)) is f(a, b)
-                    elif t[0] == 'nt':
-                        args.extend(t[2])
-                    elif is_const(t) and isinstance(t[1], tuple):
-                        args.extend(const(x) for x in t[1])
+                    seq = self.as_sequence(t, s)
+                    if seq is not None:
+                        args.extend(seq)        # f(*(a, b)) is f(a, b)
                     else:
                         args.append(op('star', t))
                 else:
@@ -2305,8 +2460,10 @@ class PathSum(object):
             if (local and target not in self.stack
                     and len(self.stack) <= self.max_depth) or \
                     self.want_inline(target):
-                return self.invoke(target, impl + list(args), kwargs, st, fi,
-                                   node)
+                return self.invoke(
+                    target, impl + list(args), kwargs, st, fi, node,
+                    closure=bound[2] if isinstance(bound, tuple) and bound
+                    and bound[0] == 'closure' and len(bound) > 2 else None)
             return self.opaque_call(fn, args, kwargs, st, fi, node, [target])
         if k == 'cls':
             return self.construct(fn[1], args, kwargs, st, fi, node)
@@ -2317,6 +2474,12 @@ class PathSum(object):
             r = self.method(fn[1], fn[2], args, kwargs, st, fi, node)
             if r is not None:
                 return r
+            if fn[1][0] in ('list', 'dict', 'set') and fn[2] in MUTATORS:
+                # a literal container changed in place: whoever holds it no
+                # longer holds the literal
+                self.forget_literal(fn[1], st)
+                fn = ('attr', ('call', ('builtin', '<mutable>'), (fn[1],),
+                               (), next(self.uid)), fn[2])
         targets = []
         if isinstance(node, ast.Call):
             try:
@@ -2384,6 +2547,47 @@ class PathSum(object):
                 node.func.value.id in st.env:
             st.env[node.func.value.id] = ('list', recv[1] + (args[0],))
             return [(st, NONE)]
+        if recv[0] == 'dict' and name in ('update', 'setdefault') and \
+                isinstance(node, ast.Call) and isinstance(
+                    node.func, ast.Attribute) and isinstance(
+                        node.func.value, ast.Name) and \
+                node.func.value.id in st.env and len(args) <= (
+                    1 if name == 'update' else 2):
+            pairs = list(recv[1])
+            new = []
+            ok = True
+            if name == 'update':
+                if args:
+                    a = args[0]
+                    if a[0] == 'dict':
+                        new.extend(a[1])
+                    elif a[0] in ('tuple', 'list') and all(
+                            x[0] in ('tuple', 'list') and len(x[1]) == 2
+                            for x in a[1]):
+                        new.extend((x[1][0], x[1][1]) for x in a[1])
+                    else:
+                        ok = False
+                new.extend((const(k), v) for k, v in kwargs.items())
+                res = NONE
+            else:
+                hit = [v for k, v in pairs if struct(k) == struct(args[0])]
+                if hit:
+                    res = hit[0]
+                elif all(is_const(k) for k, _ in pairs) and is_const(
+                        args[0]) and not kwargs:
+                    res = args[1] if len(args) > 1 else NONE
+                    new.append((args[0], res))
+                else:
+                    ok = False
+            if ok and all(is_const(k) for k, _ in pairs + new):
+                for k, v in new:
+                    if any(struct(a) == struct(k) for a, _ in pairs):
+                        pairs = [(a, v if struct(a) == struct(k) else b)
+                                 for a, b in pairs]
+                    else:
+                        pairs.append((k, v))
+                st.env[node.func.value.id] = ('dict', tuple(pairs))
+                return [(st, res)]
         if recv[0] == 'set' and name == 'add' and len(args) == 1 and \
                 isinstance(node, ast.Call) and isinstance(
                     node.func, ast.Attribute) and isinstance(
@@ -2420,6 +2624,15 @@ class PathSum(object):
             self.emit(st, Ev('store', node, fi, st, base=args[0],
                              attr=args[1], value=args[2]))
             return [(st, NONE)]
+        if nm == 'delattr' and len(args) == 2:
+            # del o.<name>
+            nmv = args[1][1] if is_const(args[1]) and isinstance(
+                args[1][1], str) else args[1]
+            self.emit(st, Ev('store', node, fi, st, base=args[0], attr=nmv,
+                             value=('deleted',)))
+            if isinstance(nmv, str):
+                st.heap[(args[0], nmv)] = ('deleted',)
+            return [(st, NONE)]
         if nm == 'isinstance' and len(args) == 2:
             return [(st, op('isinstance', args[0], args[1]))]
         if nm == 'bool' and len(args) == 1:
@@ -2437,25 +2650,23 @@ class PathSum(object):
             if is_const(args[0]) and isinstance(args[0][1], (str, int)):
                 return [(st, const(str(args[0][1])))]
             return [(st, op('str', args[0]))]
-        if nm == 'tuple' and len(args) == 1 and args[0][0] in ('tuple',
-                                                               'list'):
-            return [(st, ('tuple', args[0][1]))]
-        if nm == 'list' and len(args) == 1 and args[0][0] in ('tuple',
-                                                              'list'):
-            return [(st, ('list', args[0][1]))]
-        if nm == 'map' and len(args) == 2 and not kwargs:
-            seq = args[1]
-            if is_const(seq) and isinstance(seq[1], tuple):
-                seq = ('tuple', tuple(const(x) for x in seq[1]))
-            if seq[0] in ('tuple', 'list') and len(seq[1]) <= self.unroll:
-                # map over a literal sequence with a function that has no
+        if nm in ('tuple', 'list') and len(args) == 1 and not kwargs:
+            seq = self.as_sequence(args[0], st)
+            if seq is not None and not (is_const(args[0]) and isinstance(
+                    args[0][1], str)):
+                return [(st, (nm, tuple(seq)))]
+        if nm == 'map' and len(args) >= 2 and not kwargs:
+            seqs = [self.as_sequence(a, st, self.unroll) for a in args[1:]]
+            if all(q is not None for q in seqs):
+                # map over literal sequences with a function that has no
                 # effect: the sequence of its results (lazy or not)
                 probe = st.fork()
                 n0 = len(probe.events)
                 vals = []
-                for item in seq[1]:
+                for item in zip(*seqs):
                     try:
-                        res = self.apply(args[0], [item], {}, probe, fi, node)
+                        res = self.apply(args[0], list(item), {}, probe, fi,
+                                         node)
                     except AnalysisError:
                         res = []
                     if len(res) != 1 or res[0][0] is not probe or \
@@ -2465,7 +2676,28 @@ class PathSum(object):
                         break
                     vals.append(res[0][1])
                 if vals is not None:
+                    # function objects made on the way keep their frames
+                    st.notes.extend(probe.notes[len(st.notes):])
                     return [(st, ('tuple', tuple(vals)))]
+        if nm == 'dict' and len(args) == 1:
+            a = args[0]
+            pairs = None
+            if a[0] == 'dict':
+                pairs = list(a[1])
+            elif a[0] in ('tuple', 'list') and all(
+                    x[0] in ('tuple', 'list') and len(x[1]) == 2
+                    for x in a[1]):
+                pairs = [(x[1][0], x[1][1]) for x in a[1]]
+            elif a[0] == 'op' and a[1] == 'zip' and len(a[2]) == 2 and all(
+                    x[0] in ('tuple', 'list') for x in a[2]) and \
+                    len(a[2][0][1]) == len(a[2][1][1]):
+                pairs = list(zip(a[2][0][1], a[2][1][1]))
+            if pairs is not None and all(is_const(k) for k, _ in pairs):
+                res = []
+                for k, v in pairs + [(const(k), v)
+                                     for k, v in kwargs.items()]:
+                    res = [(a2, b2) for a2, b2 in res if a2 != k] + [(k, v)]
+                return [(st, ('dict', tuple(res)))]
         if nm == 'dict' and not args:
             return [(st, ('dict', tuple((const(k), v)
                                         for k, v in kwargs.items())))]
@@ -2551,11 +2783,13 @@ class PathSum(object):
             out.append((s, o if s.outcome is None else BOT))
         return out
 
-    def invoke(self, target, args, kwargs, st, fi, node):
+    def invoke(self, target, args, kwargs, st, fi, node, closure=None):
         """Inline the body of target.  -> [(state, result term)]"""
         a = target.node.args
         params = [x.arg for x in a.posonlyargs + a.args]
-        env = {}
+        env = {'<frame>': next(self.uid)}
+        if closure is not None:
+            env['<closure>'] = closure
         args = list(args)
         if any(x[0] == 'op' and x[1] == 'star' for x in args) or \
                 '**' in kwargs:
@@ -2809,14 +3043,10 @@ class PathSum(object):
             if is_for and it[0] == 'gen':
                 out.extend(self.iterate_generator(n, s, it, fi))
                 continue
-            if is_for and it[0] == 'nt':
-                it = ('tuple', it[2])
             if is_for:
-                if it[0] in ('tuple', 'list') and len(it[1]) <= self.unroll:
-                    items = list(it[1])
-                elif is_const(it) and isinstance(it[1], (tuple, str)) and \
-                        len(it[1]) <= self.unroll:
-                    items = [const(x) for x in it[1]]
+                items = self.as_sequence(it, s, self.unroll)
+                if items is not None:
+                    pass
                 elif it[0] == 'op' and it[1] == 'range' and len(
                         it[2]) == 1 and is_const(it[2][0]) and isinstance(
                             it[2][0][1], int) and \
@@ -2867,13 +3097,20 @@ class PathSum(object):
                     x.ctx, (ast.Store, ast.Del)) and isinstance(
                         x.value, ast.Name):
                 written.add(x.value.id)     # d[k] = v changes d
+            elif isinstance(x, ast.Subscript) and isinstance(
+                    x.ctx, (ast.Store, ast.Del)) and isinstance(
+                        x.value, ast.Attribute):
+                wattrs.add(x.value.attr)    # o.d[k] = v changes o.d
             elif isinstance(x, ast.Call) and isinstance(
                     x.func, ast.Attribute) and isinstance(
-                        x.func.value, ast.Name) and x.func.attr in (
-                            'append', 'add', 'update', 'extend', 'insert',
-                            'pop', 'remove', 'clear', 'setdefault',
-                            'appendleft', 'popleft', 'discard'):
+                        x.func.value, ast.Name) and \
+                    x.func.attr in MUTATORS:
                 written.add(x.func.value.id)
+            elif isinstance(x, ast.Call) and isinstance(
+                    x.func, ast.Attribute) and isinstance(
+                        x.func.value, ast.Attribute) and \
+                    x.func.attr in MUTATORS:
+                wattrs.add(x.func.value.attr)   # o.items.append(v)
         if is_for:
             for x in ast.walk(n.target):
                 if isinstance(x, ast.Name):
